@@ -252,7 +252,7 @@ def run(pid, tier, seed, replay=None):
            'checker_cmd': 'cd /verif/coq && make -j16 props/Properties_%s.vo && coqc -Q theories Mpir -Q gen MpirGen -Q props MpirProps props/Properties_%s.v' % (pid, pid),
            'trusted_base': tb,
            'obligation_list': [{'name': o['name'], 'status': o['status'], 'axioms': o['axioms']} for o in obligations],
-           'evaluations': len(lines), 'distinct_nontrivial': distinct,
+           'evaluations': len(lines) + int(ctx.extra_cov.get('extra_evaluations', 0)), 'distinct_nontrivial': distinct + int(ctx.extra_cov.get('extra_distinct', 0)),
            'rule': getattr(mod, 'RULE', 'generated correspondence cases; distinct case lines'),
            'case_histogram': hist, 'observed_tags': dict(sorted(ctx.tags.items(), key=lambda kv: -kv[1])[:60]), 'samples': samples,
            'traces_validated_against_impl': len(lines) - len(bad),
